@@ -6,6 +6,7 @@ import (
 	"fmt"
 	"github.com/ipfs/go-unixfsnode"
 	"io"
+	"sort"
 	"testing"
 	"time"
 
@@ -599,4 +600,100 @@ func mustLoad(ls *ipld.LinkSystem, c cid.Cid) datamodel.Node {
 		panic(err)
 	}
 	return n
+}
+
+// An empty child shard (well-formed, zero links) below a root that also has value entries: every accessor, the typed
+// iterator included, has to get past it.
+func TestC13_R_EmptyChildShard(t *testing.T) {
+	for _, fan := range []uint64{8, 256} {
+		pad := len(fmt.Sprintf("%X", fan-1))
+		name := func(bucket int, s string) *string { return strp(fmt.Sprintf("%0*X%s", pad, bucket, s)) }
+		for _, pos := range []int{0, 1, 2} { // empty shard first / in the middle / last
+			leaf := &mnode{IsRaw: true, Raw: []byte("v")}
+			links := []mlink{{Name: name(1, "a.txt"), Tsize: i64p(1), Child: leaf}, {Name: name(6, "b.txt"), Tsize: i64p(1), Child: leaf}}
+			empty := mlink{Name: name([]int{0, 3, 7}[pos], ""), Tsize: i64p(1), Child: &mnode{HasData: true, UFS: hamtFields(fan, nil)}}
+			links = append(links[:pos], append([]mlink{empty}, links[pos:]...)...)
+			bf := make([]byte, fan/8)
+			for _, b := range []int{1, 6, []int{0, 3, 7}[pos]} {
+				bf[len(bf)-1-b/8] |= 1 << uint(b%8)
+			}
+			c13MustSurvive(t, fmt.Sprintf("empty child shard (fanout %d, position %d)", fan, pos), &mnode{HasData: true, UFS: hamtFields(fan, bf), Links: links})
+		}
+	}
+}
+
+const c13WideRule = "case = one dag-pb block with 1000..3000 links (at, just over and far over 1024) viewed as a plain directory, a link map without Data, or a node with garbage Data; names sorted or shuffled; at drawn positions - aimed at the middle, the quartiles and the ends, where a bisecting lookup would probe - links are nameless, empty-named or duplicated; all targets absent from the store; " +
+	"every node operation runs under recover() and the C13 budgets; violation = panic or budget exceeded; every case non-trivial; distinct by (n, view, sortedness, defect kinds)"
+
+// TestC13_P_WideLinkMaps: hostile input does not have to be deep - one very wide block is enough to reach code that treats
+// "many links" differently.
+func TestC13_P_WideLinkMaps(t *testing.T) {
+	ev := newEvid(t, c13WideRule)
+	rapid.Check(t, func(t *rapid.T) {
+		n := rapid.SampledFrom([]int{1000, 1023, 1024, 1025, 1026, 1500, 2048, 2049, 3000}).Draw(t, "links")
+		view := rapid.SampledFrom([]string{"directory", "no-data", "garbage-data", "symlink"}).Draw(t, "view")
+		m := &mnode{}
+		switch view {
+		case "directory":
+			m.HasData, m.UFS = true, &ufsFields{Type: 1}
+		case "garbage-data":
+			m.HasData, m.Garbage = true, []byte{0xff, 0x01}
+		case "symlink":
+			m.HasData, m.UFS = true, &ufsFields{Type: 4, HasData: true, Data: []byte("t")}
+		}
+		for i := 0; i < n; i++ {
+			m.Links = append(m.Links, mlink{Name: strp(fmt.Sprintf("n%05d", i)), Tsize: i64p(1), Missing: true})
+		}
+		probes := []int{0, 1, n/4 - 1, n / 4, n/2 - 1, n / 2, n/2 + 1, 3 * n / 4, n - 2, n - 1, 511, 512, 1023}
+		kinds := map[string]bool{}
+		for i := rapid.IntRange(1, 4).Draw(t, "defects"); i > 0; i-- {
+			at := probes[rapid.IntRange(0, len(probes)-1).Draw(t, "at")]
+			if rapid.Bool().Draw(t, "anywhere") {
+				at = rapid.IntRange(0, n-1).Draw(t, "atAny")
+			}
+			if at >= n {
+				at = n - 1
+			}
+			switch k := rapid.SampledFrom([]string{"nameless", "nameless", "empty-name", "duplicate", "no-tsize"}).Draw(t, "defect"); k {
+			case "nameless":
+				m.Links[at].Name = nil
+				kinds[k] = true
+			case "empty-name":
+				m.Links[at].Name = strp("")
+				kinds[k] = true
+			case "duplicate":
+				m.Links[at].Name = m.Links[(at+1)%n].Name
+				kinds[k] = true
+			default:
+				m.Links[at].Tsize = nil
+				kinds[k] = true
+			}
+		}
+		sorted := rapid.Bool().Draw(t, "sorted")
+		if !sorted {
+			m.Links = rapid.Permutation(m.Links).Draw(t, "order")
+		}
+		keys := []string{"n00000", fmt.Sprintf("n%05d", n/2), fmt.Sprintf("n%05d", n-1), "n99999", "a", "zzz"}
+		xs, p, stack, root, err := c13Run(m, keys...)
+		if err != nil {
+			t.Fatalf("harness: %v", err)
+		}
+		if p != nil {
+			t.Fatalf("C13: PANIC on a %s block with %d links (%v, sorted=%v) %s: %v\n%s", view, n, keys0(kinds), sorted, root, p, stack)
+		}
+		if xs.violation != "" {
+			t.Fatalf("C13: budget violation on a %s block with %d links (%v): %s", view, n, keys0(kinds), xs.violation)
+		}
+		ev.Case(fmt.Sprintf("%s n=%d sorted=%v %v", view, n, sorted, keys0(kinds)), true, "view:"+view, fmt.Sprintf("links:%d", n))
+		ev.Sample(map[string]any{"view": view, "links": n, "sorted": sorted, "defects": keys0(kinds)})
+	})
+}
+
+func keys0(m map[string]bool) []string {
+	var out []string
+	for k := range m {
+		out = append(out, k)
+	}
+	sort.Strings(out)
+	return out
 }
